@@ -101,6 +101,13 @@ func InstallPQ(l *load.Loaded) error {
 // Place runs the import pass on every file and writes it; syntax errors are returned as problems.
 func Place(l *load.Loaded, files []GenFile) []Problem {
 	var probs []Problem
+	// the import pass resolves a missing package from the working directory's module (the goimports
+	// binary gomacro runs is started inside the user's module): do the same
+	if wd, err := os.Getwd(); err == nil {
+		if os.Chdir(l.Mod.Root) == nil {
+			defer os.Chdir(wd)
+		}
+	}
 	for _, f := range files {
 		path := filepath.Join(l.Mod.Root, f.Case, f.Name)
 		out, err := imports.Process(path, []byte(f.Content), &imports.Options{Comments: true, TabIndent: true, TabWidth: 8})
